@@ -67,7 +67,7 @@ func init() {
 		},
 		TimeoutSec: func(t string) int {
 			if t == ev.Thorough {
-				return 3600
+				return 5400
 			}
 			return 900
 		},
